@@ -7,7 +7,8 @@ import (
 )
 
 type entA struct {
-	V int `json:"v"`
+	V   int    `json:"v"`
+	Tag string `json:"tag,omitempty"`
 }
 
 type entB struct {
